@@ -471,7 +471,7 @@ pub fn check_c03(tier: Tier, seed: u64) -> i32 {
         crate::fuzzglue::replay_seed_corpus(&check, t);
     }
     if tier == Tier::Thorough {
-        crate::fuzzglue::campaign(&check, "fmt_entry_struct", 10_000_000, 512);
+        crate::fuzzglue::campaign(&check, "fmt_entry_struct", 2_000_000, 512);
         crate::fuzzglue::campaign(&check, "fmt_blob_index", 10_000_000, 8192);
     }
     check.set_extra("fault_runs", serde_json::json!(FAULT_RUNS.load(std::sync::atomic::Ordering::Relaxed)));
